@@ -1047,7 +1047,7 @@ def parse_primary_expr(lexer, unary_minus=False):
             result = NodeContinue(token.pos)
         elif token.value == "return" and token.type == "keyword":
             if lexer.peekn(1, ";", "interpunction"):
-                result = NodeReturn(None, token.pos)
+                result = NodeReturn(NodeNull(token.pos), token.pos)
             else:
                 result = NodeReturn(parse_expression(lexer), token.pos)
         elif token.value == "error" and token.type == "keyword":
